@@ -27,6 +27,7 @@ class Project(object):
         self._norm_cache = {}  # type: dict[str, list[str]]
         self._module_cache = {}  # type: dict[str, ImportedModule | SourceModule]
         self._context_cache = {}  # type: dict[str, ImportedModule | SourceModule]
+        self._missing = set()  # type: set[str]
         self.dyn_modules = set(dyn_modules or [])
 
     def get_path(self):
@@ -72,7 +73,34 @@ class Project(object):
     def check_changes(self):
         # type: () -> t.Iterator[None]
         self._context_cache.clear()
+        if (any(m.changed for m in self._module_cache.values())
+                or any(self._find_module(name, self.sources)[0] for name in sorted(self._missing))):
+            self._drop_caches()
         yield
+
+    def _drop_caches(self):
+        # type: () -> None
+        # analysed modules refer to each other (imported names, base classes,
+        # star imports, failed imports), so a change in one outdates them all
+        self._module_cache.clear()
+        self._context_cache.clear()
+        self._norm_cache.clear()
+        self._missing.clear()
+
+    def _find_module(self, name, path):
+        # type: (str, list[str]) -> tuple[str | None, bool]
+        for p in path:
+            mpath = os.path.join(p, *name.split('.'))
+            for s in SUFFIXES:
+                fname = mpath + s
+                if os.path.exists(fname):
+                    return fname, s in SOURCE_SUFFIXES
+
+            fname = os.path.join(mpath, '__init__.py')
+            if os.path.exists(fname):
+                return fname, True
+
+        return None, False
 
     def get_nmodule(self, name, filename):
         # type: (str, str) -> SourceModule | ImportedModule
@@ -88,34 +116,14 @@ class Project(object):
         try:
             m = self._module_cache[name]
             if m.changed:
-                del self._module_cache[name]
+                self._drop_caches()
             else:
                 self._context_cache[name] = m
                 return m
         except KeyError:
             pass
 
-        path = self.get_path()
-        filename = None
-        is_source = False
-        for p in path:
-            mpath = os.path.join(p, *name.split('.'))
-            for s in SUFFIXES:
-                fname = mpath + s
-                if os.path.exists(fname):
-                    filename = fname
-                    is_source = s in SOURCE_SUFFIXES
-                    break
-            else:
-                fname = os.path.join(mpath, '__init__.py')
-                if os.path.exists(fname):
-                    filename = fname
-                    is_source = True
-                    break
-
-            if filename:
-                break
-
+        filename, is_source = self._find_module(name, self.get_path())
         module = None  # type: SourceModule | ImportedModule | None
         if not filename:
             if name in sys.modules:
@@ -129,6 +137,8 @@ class Project(object):
                 module = SourceModule(self, name, filename)
 
         if not module:
+            # remembered: the module may be created later
+            self._missing.add(name)
             raise ImportError(name)
 
         self._module_cache[name] = module
